@@ -36,9 +36,12 @@ RAW = {
 TITLE = {1: "F1", 2: "F2"}
 BASE = "http://127.0.0.1:8080"
 FIELDS = ["url-path", "url-query", "req-header", "resp-header", "req-body", "resp-body", "title", "message",
-          "cov-description", "reason", "command"]
+          "cov-description", "reason", "command", "req-form", "req-cookie", "resp-set-cookie", "url-userinfo"]
+WIRE_FIELDS = ("url-path", "url-query", "req-header", "resp-header", "req-body", "resp-body", "reason", "req-form", "req-cookie",
+               "resp-set-cookie")
+CTYPES = ["application/json", "text/plain", "application/octet-stream"]  # -> requests' encoding: utf-8, ISO-8859-1, None
 CLASS = {97: "alnum", 39: "squote", 34: "dquote", 92: "backslash", 58: "colon", 35: "hash", 10: "newline", 0: "nul",
-         8232: "u2028", 233: "latin1", 55296: "surrogate", 32: "space", 45: "dash", 123: "brace", 91: "bracket", 128512: "astral"}
+         8232: "u2028", 233: "latin1", 55296: "surrogate", 32: "space", 45: "dash", 123: "brace", 91: "bracket", 128512: "astral", 1: "c0-control"}
 _state: dict = {}
 
 
@@ -71,7 +74,8 @@ def _setup() -> dict:
         def meta(kind: str, desc: str = "d"):
             if kind == "none":
                 return None
-            phase = PhaseInfo.coverage(desc, "query", "q", "query") if kind == "coverage" else PhaseInfo.generate()
+            phase = PhaseInfo.coverage(desc, "query", "q", "query") if kind == "coverage" else \
+                PhaseInfo.coverage(desc, None, None, None) if kind == "coverage-bare" else PhaseInfo.generate()
             return CaseMetadata(generation=GenerationInfo(time=0.5, mode=GenerationMode.POSITIVE),
                                 components={ComponentKind.QUERY: ComponentInfo(mode=GenerationMode.POSITIVE)}, phase=phase)
 
@@ -89,42 +93,138 @@ class OutsideFragment(Exception):
     pass
 
 
+class WireServer:
+    """Loopback HTTP server for the wire mode: logs what it RECEIVED (raw request-target, headers, body) and answers exactly what the
+    script says - status line with its own reason phrase and only the scripted headers (+ Content-Length)."""
+
+    def __init__(self):
+        from http.server import BaseHTTPRequestHandler, ThreadingHTTPServer
+
+        outer = self
+        self.script: dict = {}
+        self.log: list[dict] = []
+        self.lock = threading.Lock()
+
+        class Handler(BaseHTTPRequestHandler):
+            protocol_version = "HTTP/1.1"
+
+            def log_message(self, *a, **k):
+                pass
+
+            def _handle(self):
+                n = int(self.headers.get("Content-Length") or 0)
+                body = self.rfile.read(n) if n else b""
+                sc = outer.script_for(self.command, self.path, body) if callable(outer.script_for) else outer.script
+                with outer.lock:
+                    outer.log.append({"method": self.command, "target": self.path, "headers": list(self.headers.items()), "body": body,
+                                      "script": sc})
+                self.send_response_only(sc["status"], sc["reason"])
+                for k, v in sc["headers"]:
+                    self.send_header(k, v)
+                self.send_header("Content-Length", str(len(sc["body"])))
+                self.end_headers()
+                self.wfile.write(sc["body"])
+
+            def __getattr__(self, name):
+                if name.startswith("do_"):
+                    return self._handle
+                raise AttributeError(name)
+
+        self.script_for = None
+        self.httpd = ThreadingHTTPServer(("127.0.0.1", 0), Handler)
+        self.httpd.daemon_threads = True
+        self.base_url = "http://127.0.0.1:%d" % self.httpd.server_address[1]
+        threading.Thread(target=self.httpd.serve_forever, kwargs={"poll_interval": 0.05}, daemon=True).start()
+
+    def stop(self):
+        self.httpd.shutdown()
+        self.httpd.server_close()
+
+
+_wire: dict = {}
+
+
+def _wire_env(st):
+    if "srv" not in _wire:  # created lazily, i.e. inside the (forked) worker process
+        _wire["srv"] = WireServer()
+        _wire["session"] = st["requests"].Session()
+    return _wire["srv"], _wire["session"]
+
+
+def cov_extra(meta_kind: str) -> list[dict]:
+    full = meta_kind == "coverage"
+    return [{"key": cp(k), "has": full, "v": cp(v) if full else []}
+            for k, v in (("location", "query"), ("parameter", "q"), ("parameter_location", "query"))]
+
+
 def make_exchange(st, rec, *, cid, url, req_headers=None, req_body=None, resp=True, status=200, reason="OK",
-                  resp_headers=None, resp_body=b"{}", meta_kind="generate", cov_desc="d", checks=()):
-    """Record one case + its interaction + check results into the real recorder; return the delivered-exchange projection."""
+                  resp_headers=None, resp_body=b"{}", meta_kind="generate", cov_desc="d", checks=(), wire=False, method="GET"):
+    """Record one case + its interaction + check results into the real recorder; return the delivered-exchange projection.
+    wire=True: the request really travels to a loopback server and the response really comes back (requests -> Response.from_requests);
+    the projection is then what the SERVER received and sent."""
     requests = st["requests"]
     case = st["op"].Case(meta=st["meta"](meta_kind, cov_desc))
     case.id = cid  # deterministic ids keep the set of distinct cassette lines small
+    rh = resp_headers if resp_headers is not None else {"content-type": ["application/json"]}
+    if wire:
+        srv, session = _wire_env(st)
+        url = srv.base_url + url[len(BASE):]
     try:
-        prepared = requests.Request("GET", url, headers=req_headers or {"X-Req": "1"}, data=req_body).prepare()
+        request = requests.Request(method, url, headers=req_headers or {"X-Req": "1"}, data=req_body)
+        # on the wire the request is prepared by the session, as `requests.Session.request` (used by the transport) does
+        prepared = session.prepare_request(request) if wire else request.prepare()
     except Exception as exc:  # a request that `requests` refuses to build can never be delivered
         raise OutsideFragment("prepare: %s" % type(exc).__name__)
     rec.record_case(parent_id=None, transition=None, case=case)
     response = None
-    rh = resp_headers if resp_headers is not None else {"content-type": ["application/json"]}
-    if resp:
+    seen = None
+    if wire:
+        srv.script = {"status": status, "reason": reason, "headers": [(k, v[0]) for k, v in rh.items()], "body": resp_body}
+        del srv.log[:]
+        try:
+            raw = session.send(prepared, allow_redirects=False, timeout=10)
+        except Exception as exc:  # the HTTP client refused the scripted response / request: it was never delivered
+            _wire.pop("session").close()
+            _wire["session"] = requests.Session()
+            raise OutsideFragment("wire: client raised %s" % type(exc).__name__)
+        if len(srv.log) != 1:
+            raise OutsideFragment("wire: %d requests reached the server" % len(srv.log))
+        seen = srv.log[0]
+        response = st["Response"].from_requests(raw, verify=False)
+        rec.record_response(case_id=case.id, response=response)
+    elif resp:
         response = st["Response"](status_code=status, headers=rh, content=resp_body, request=prepared, elapsed=0.25,
                                   verify=False, message=reason, encoding="utf-8")
         rec.record_response(case_id=case.id, response=response)
     else:
         rec.record_request(case_id=case.id, request=prepared)
     rec.interactions[case.id].timestamp = 1_700_000_000.0  # data, not code: keeps the set of distinct lines small
+    if response is not None:
+        response.elapsed = 0.25
     for name, fid, title, message in checks:
         if fid == 0:
             rec.record_check_success(name=name, case_id=case.id)
         else:
             rec.record_check_failure(name=name, case_id=case.id, code_sample="curl -X GET " + BASE + "/a",
                                      failure=st["Failure"](operation="GET /a", title=title, message=message))
+    common_part = {"id": cp(case.id), "covDesc": {"has": meta_kind.startswith("coverage"), "v": cp(cov_desc)},
+                   "covExtra": cov_extra(meta_kind), "meta": "coverage" if meta_kind.startswith("coverage") else meta_kind,
+                   "code": cp(str(status)), "codeInt": status, "reason": cp(reason)}
+    if seen is not None:  # ground truth = the server's side of the wire
+        return dict(common_part, **{
+            "method": cp(seen["method"]), "uri": cp(srv.base_url + seen["target"]),
+            "reqHeaders": [{"name": cp(k), "value": cp(v)} for k, v in seen["headers"] if k.lower() != "host"],
+            "hasReqBody": bool(seen["body"]) or prepared.body is not None, "reqBody": list(seen["body"]),
+            "respHeaders": [{"name": cp(k.lower()), "value": cp(v)} for k, v in srv.script["headers"]]
+                           + [{"name": cp("content-length"), "value": cp(str(len(resp_body)))}],
+            "respBody": list(resp_body)})
     body = prepared.body.encode("utf-8") if isinstance(prepared.body, str) else prepared.body
-    return {
-        "id": cp(case.id), "method": cp(prepared.method), "uri": cp(prepared.url),
+    return dict(common_part, **{
+        "method": cp(prepared.method), "uri": cp(prepared.url),
         "reqHeaders": [{"name": cp(k), "value": cp(v)} for k, v in prepared.headers.items()],
         "hasReqBody": body is not None, "reqBody": list(body or b""),
-        "code": cp(str(status)), "codeInt": status, "reason": cp(reason),
         "respHeaders": [{"name": cp(k.lower()), "value": cp(v[0])} for k, v in rh.items()] if resp else [],
-        "respBody": list(resp_body) if resp else [],
-        "covDesc": {"has": meta_kind == "coverage", "v": cp(cov_desc)},
-    }
+        "respBody": list(resp_body) if resp else []})
 
 
 SHAPES = {
@@ -159,7 +259,8 @@ def build_events(st, events_desc: list[dict]):
                 st, rec, cid="e%dc%d" % (k, c), url="%s/a?e=%d&c=%d" % (BASE, k, c), resp=resp,
                 status=500 if failed else 200, reason="Internal Server Error" if failed else "OK",
                 req_body=b"k=%d" % k if c == 2 else None, resp_body=b'{"ev": %d}' % k,
-                meta_kind=META[e["phase"]], checks=[("chk", f, TITLE.get(f), "m%d" % f) for f in checks]))
+                meta_kind="coverage-bare" if (META[e["phase"]] == "coverage" and (k + c) % 2) else META[e["phase"]],
+                checks=[("chk", f, TITLE.get(f), "m%d" % f) for f in checks]))
         out.append(ev.ScenarioFinished(
             id=uuid.uuid4(), phase=phase, suite_id=suite, label=None if e["label"] == "Stateful tests" else e["label"],
             status=Status[status], recorder=rec, elapsed_time=0.01, skip_reason="why" if e["shape"] == "skip" else None,
@@ -324,7 +425,8 @@ class Pool:
 
 
 # driver-side (independent) reading of the cassette with PyYAML / libyaml - only to cross-check TLC's verdict
-def py_vcr_ok(text: str | None, exch: list[dict], entries: list[dict], preserve: bool, uri_exact: bool = True) -> bool:
+def py_vcr_ok(text: str | None, exch: list[dict], entries: list[dict], preserve: bool, uri_exact: bool = True,
+              command: dict | None = None) -> bool:
     import yaml
 
     if text is None:
@@ -334,7 +436,8 @@ def py_vcr_ok(text: str | None, exch: list[dict], entries: list[dict], preserve:
     except Exception:
         return False
     try:
-        if exch and exch[0].get("command", {}).get("has") and cp(doc["command"]) != exch[0]["command"]["v"]:
+        if command and command["has"] and (not isinstance(doc.get("command"), str) or
+                                           (command["exact"] and cp(doc["command"]) != command["v"])):
             return False
         items = doc["http_interactions"] or []
         if len(items) != len(entries) or len(exch) != len(entries):
@@ -343,25 +446,29 @@ def py_vcr_ok(text: str | None, exch: list[dict], entries: list[dict], preserve:
             if cp(it["id"]) != x["id"] or it["status"] != e["status"]:
                 return False
             rq = it["request"]
-            if (uri_exact and cp(rq["uri"]) != x["uri"]) or cp(rq["method"]) != x["method"]:
+            if (uri_exact and not _uri_matches(rq["uri"], x["uri"])) or cp(rq["method"]) != x["method"]:
                 return False
             hs = rq["headers"] or {}
-            if [(cp(k), cp(v[0])) for k, v in hs.items()] != [(h["name"], h["value"]) for h in x["reqHeaders"]]:
+            if uri_exact and [(cp(k), cp(v[0])) for k, v in hs.items()] != [(h["name"], h["value"]) for h in x["reqHeaders"]]:
                 return False
             if not _py_body_ok(rq.get("body"), x["hasReqBody"], bytes(x["reqBody"]), preserve):
                 return False
             chk = it["checks"] or []
-            if len(chk) != len(e["checks"]):
-                return False
-            for c, ce in zip(chk, e["checks"]):
-                if c["name"] != ce["name"] or c["status"] != ce["status"] or c["message"] != ce["message"]:
+            if e.get("checks_exact", True):
+                if len(chk) != len(e["checks"]):
                     return False
+                for c, ce in zip(chk, e["checks"]):
+                    if c["name"] != ce["name"] or c["status"] != ce["status"] or c["message"] != ce["message"]:
+                        return False
+            elif not all(any(c["name"] == ce["name"] and c["status"] == ce["status"] and c["message"] == ce["message"] for c in chk)
+                         for ce in e["checks"]):
+                return False
             if e["resp"]:
                 rs = it["response"]
                 if cp(rs["status"]["code"]) != x["code"] or cp(rs["status"]["message"]) != x["reason"]:
                     return False
                 hs = rs["headers"] or {}
-                if [(cp(k), cp(v[0])) for k, v in hs.items()] != [(h["name"], h["value"]) for h in x["respHeaders"]]:
+                if uri_exact and [(cp(k), cp(v[0])) for k, v in hs.items()] != [(h["name"], h["value"]) for h in x["respHeaders"]]:
                     return False
                 if not _py_body_ok(rs.get("body"), True, bytes(x["respBody"]), preserve):
                     return False
@@ -373,11 +480,21 @@ def py_vcr_ok(text: str | None, exch: list[dict], entries: list[dict], preserve:
             else:
                 if it["phase"]["name"] != e["meta"] or "mode" not in it["generation"]:
                     return False
-                if e["meta"] == "coverage" and cp(it["phase"]["data"]["description"]) != x["covDesc"]["v"]:
-                    return False
+                if e["meta"] == "coverage":
+                    data = it["phase"]["data"]
+                    if cp(data["description"]) != x["covDesc"]["v"]:
+                        return False
+                    for extra in x["covExtra"]:
+                        got = data["".join(map(chr, extra["key"]))]
+                        if (got is None) == extra["has"] or (extra["has"] and cp(got) != extra["v"]):
+                            return False
         return True
     except Exception:
         return False
+
+
+def _uri_matches(recorded: str, sent: list[int]) -> bool:
+    return cp(recorded) == sent or cp(recorded.split("#", 1)[0]) == sent
 
 
 def _py_body_ok(body, has: bool, raw: bytes, preserve: bool) -> bool:
@@ -390,6 +507,13 @@ def _py_body_ok(body, has: bool, raw: bytes, preserve: bool) -> bool:
             return base64.b64decode(body["base64_string"], validate=True) == raw
         except Exception:
             return False
+    enc = str(body.get("encoding", "")).lower()
+    if not isinstance(body.get("string"), str):
+        return False
+    if enc in ("iso-8859-1", "latin-1", "latin1"):
+        return cp(body["string"]) == list(raw)
+    if enc not in ("utf-8", "utf8"):
+        return True
     try:
         text = raw.decode("utf-8")
     except UnicodeDecodeError:
@@ -421,12 +545,14 @@ def py_har_ok(har: dict, exch: list[dict], entries: list[dict], preserve: bool, 
         return sorted((tuple(h["name"]), tuple(h["value"])) for h in hs)
 
     for h, x, e in zip(har["entries"], exch, entries):
-        if h["method"] != x["method"] or (uri_exact and h["url"] != x["uri"]) or hset(h["reqHeaders"]) != hset(x["reqHeaders"]):
+        if h["method"] != x["method"] or (uri_exact and not _uri_matches("".join(map(chr, h["url"])), x["uri"])) or \
+                (uri_exact and hset(h["reqHeaders"]) != hset(x["reqHeaders"])):
             return False
         if not body_ok(h["hasPost"], h["postText"], preserve, x["hasReqBody"], bytes(x["reqBody"]), preserve):
             return False
         if e["resp"]:
-            if h["status"] != x["codeInt"] or h["reason"] != x["reason"] or hset(h["respHeaders"]) != hset(x["respHeaders"]):
+            if h["status"] != x["codeInt"] or h["reason"] != x["reason"] or \
+                    (uri_exact and hset(h["respHeaders"]) != hset(x["respHeaders"])):
                 return False
             if not body_ok(h["hasText"], h["text"], h["b64"], True, bytes(x["respBody"]), preserve):
                 return False
@@ -571,15 +697,23 @@ def judge_histories(ctx: Ctx, hs: list[dict], obs: list[dict], tag: str) -> tupl
 HAND_QUOTED = ("url-path", "url-query", "title", "command", "cov-description", "req-body", "resp-body")
 
 
-def variants(field: str, length: int = 0, max_len: int = 3) -> list[tuple[bool, bool]]:
-    """(preserve_bytes, sanitize_output) combinations exercised for a field and a string length."""
+def variants(field: str, length: int = 0, max_len: int = 3) -> list[dict]:
+    """Variants exercised for a field and a string length: preserve_bytes, sanitize_output, wire (the exchange really crosses a
+    loopback HTTP connection) and, on the wire, the response media type (decides the character encoding `requests` reports)."""
+    plain = {"preserve": False, "sanitize": False, "wire": False, "ctype": 0}
     if length >= 3 and length == max_len:
-        return [(False, False)] if field in HAND_QUOTED else []
+        return [plain] if field in HAND_QUOTED else []
+    out = [plain] if field not in ("req-form",) else []
     if field in ("req-body", "resp-body"):
-        return [(False, False), (True, False)]
-    if field in ("url-path", "url-query"):
-        return [(False, False), (False, True)]
-    return [(False, False)]
+        out.append(dict(plain, preserve=True))
+    if field in ("url-path", "url-query", "command", "url-userinfo"):
+        out.append(dict(plain, sanitize=True))
+    if field in WIRE_FIELDS:
+        out.append(dict(plain, wire=True, ctype=length % 3))
+        if field == "resp-body":
+            out += [dict(plain, wire=True, ctype=(length + 1) % 3), dict(plain, wire=True, ctype=(length + 2) % 3),
+                    dict(plain, wire=True, preserve=True, ctype=1)]
+    return out
 
 
 def observe_string(case: dict) -> dict:
@@ -587,13 +721,18 @@ def observe_string(case: dict) -> dict:
     st = _setup()
     s = "".join(map(chr, case["s"]))
     field = case["field"]
+    wire = case.get("wire", False)
     kw: dict = {"cid": "e1c1", "url": BASE + "/a?e=1&c=1", "checks": [("chk", 0, None, ""), ("chk", 1, "F1", "m1")],
-                "meta_kind": "coverage"}
+                "meta_kind": "coverage-bare" if field == "cov-description" else "coverage", "wire": wire}
+    if wire:
+        kw["resp_headers"] = {"content-type": [CTYPES[case.get("ctype", 0)]]}
     latin1_line = all(ord(c) < 256 and c not in "\r\n" for c in s) and s == s.strip(" ")
     if field == "url-path":
         kw["url"] = BASE + "/a/" + s
     elif field == "url-query":
         kw["url"] = BASE + "/a?q=" + s
+    elif field == "url-userinfo":
+        kw["url"] = BASE.replace("://", "://user:%s@" % s) + "/a?e=1&c=1"  # credentials in the base URL stay in the prepared URL
     elif field == "req-header":
         if not latin1_line:
             return {"skip": "header value not sendable (latin-1, no CR/LF, no outer space)"}
@@ -601,7 +740,7 @@ def observe_string(case: dict) -> dict:
     elif field == "resp-header":
         if not latin1_line:
             return {"skip": "header value not receivable (latin-1, no CR/LF, no outer space)"}
-        kw["resp_headers"] = {"content-type": ["application/json"], "x-canary": [s]}
+        kw["resp_headers"] = dict(kw.get("resp_headers") or {"content-type": ["application/json"]}, **{"x-canary": [s]})
     elif field == "req-body":
         kw["req_body"] = s.encode("utf-8", "surrogatepass")
     elif field == "resp-body":
@@ -616,6 +755,19 @@ def observe_string(case: dict) -> dict:
         if not latin1_line:
             return {"skip": "reason phrase not receivable"}
         kw["reason"] = s
+    elif field == "req-form":
+        kw["req_body"] = {"k": s}  # `requests` encodes it to a str body (application/x-www-form-urlencoded)
+        kw["method"] = "POST"
+    elif field == "req-cookie":
+        if not latin1_line:
+            return {"skip": "header value not sendable (latin-1, no CR/LF, no outer space)"}
+        kw["req_headers"] = {"Cookie": "sid=" + s}
+    elif field == "resp-set-cookie":
+        if not latin1_line:
+            return {"skip": "header value not receivable (latin-1, no CR/LF, no outer space)"}
+        kw["resp_headers"] = dict(kw.get("resp_headers") or {"content-type": ["application/json"]}, **{"set-cookie": ["sid=%s; Path=/" % s]})
+    if wire and field in ("req-body",):
+        kw["method"] = "POST"
     argv = ["/venv/bin/st", "run", BASE + "/openapi.json", "--include-name", s] if field == "command" else None
     rec = st["Recorder"](label="GET /a")
     try:
@@ -633,13 +785,14 @@ def observe_string(case: dict) -> dict:
         r = run_reporters(st, events, preserve=case["preserve"], sanitize=case["sanitize"], snapshots=False)
     finally:
         sys.argv = old_argv
-    x["command"] = {"has": argv is not None, "v": cp("st " + " ".join(argv[1:])) if argv else []}
+    command = {"has": argv is not None, "exact": not case["sanitize"], "v": cp("st " + " ".join(argv[1:])) if argv else []}
     title = kw["checks"][1][2]
     x["checks"] = [{"name": cp("chk"), "status": cp("SUCCESS"), "hasMsg": False, "msg": []},
                    {"name": cp("chk"), "status": cp("FAILURE"), "hasMsg": True, "msg": cp(title)}]
     x["hasResp"] = True
-    o = {"x": x, "crashAt": r["crashAt"], "crashSite": r["crashSite"], "vcr": r["vcr.yaml"], "har": project_har(r["har.json"]),
-         "junitOk": project_junit(r["junit.xml"])["ok"], "title": title}
+    x["checksExact"] = True
+    o = {"xs": [x], "command": command, "crashAt": r["crashAt"], "crashSite": r["crashSite"], "vcr": r["vcr.yaml"],
+         "har": project_har(r["har.json"]), "junitOk": project_junit(r["junit.xml"])["ok"], "title": title}
     o["py"] = sorted(py_string_verdict(case, o))
     return o
 
@@ -657,13 +810,13 @@ def py_string_verdict(case: dict, o: dict) -> set[str]:
     bad = set()
     if o["crashAt"]:
         return {"crash"}
-    entries = [{"status": "FAILURE", "resp": True, "meta": "coverage",
-                "checks": [{"name": "chk", "status": "SUCCESS", "message": None},
-                           {"name": "chk", "status": "FAILURE", "message": o["title"]}]}]
+    entries = o.get("entries") or [{"status": "FAILURE", "resp": True, "meta": "coverage",
+                                    "checks": [{"name": "chk", "status": "SUCCESS", "message": None},
+                                               {"name": "chk", "status": "FAILURE", "message": o["title"]}]}]
     exact = not case["sanitize"]
-    if vcr_judged(case) and not py_vcr_ok(o["vcr"], [o["x"]], entries, case["preserve"], uri_exact=exact):
+    if vcr_judged(case) and not py_vcr_ok(o["vcr"], o["xs"], entries, case["preserve"], uri_exact=exact, command=o["command"]):
         bad.add("vcr")
-    if not py_har_ok(o["har"], [o["x"]], entries, case["preserve"], uri_exact=exact):
+    if not py_har_ok(o["har"], o["xs"], entries, case["preserve"], uri_exact=exact):
         bad.add("har")
     if not o["junitOk"]:
         bad.add("junit")
@@ -683,7 +836,8 @@ def judge_strings(ctx: Ctx, cases: list[dict], obs: list[dict]) -> tuple[dict[in
         rows = []
         for i in idxs:
             c, o = cases[i], obs[i]
-            rows.append({"field": c["field"], "s": c["s"], "preserve": c["preserve"], "uriExact": not c["sanitize"], "x": o["x"],
+            rows.append({"field": c["field"], "s": c["s"], "preserve": c["preserve"], "uriExact": not c["sanitize"], "xs": o["xs"],
+                         "command": o["command"],
                          "crashAt": o["crashAt"], "crashSite": o["crashSite"] or "-",
                          "vcr": {"written": o["vcr"] is not None, "doc": [lines.add(tuple(l)) for l in split_lines(o["vcr"])]},
                          "har": o["har"], "junitOk": o["junitOk"]})
@@ -876,6 +1030,81 @@ def writer_run(desc: dict) -> list[dict]:
         shutil.rmtree(d, ignore_errors=True)
 
 
+# ------------------------------------------------------------------------------------------------------------------
+# (d) the front door: `st run --report junit,vcr,har` in a subprocess, judged against what the server saw and sent
+# ------------------------------------------------------------------------------------------------------------------
+CLI_SCHEMA = {"openapi": "3.0.2", "info": {"title": "t", "version": "1"}, "paths": {"/items": {"post": {
+    "parameters": [{"name": "q", "in": "query", "required": True, "schema": {"type": "string"}}],
+    "requestBody": {"required": True, "content": {"application/json": {"schema": {"type": "string"}}}},
+    "responses": {"200": {"description": "ok"}}}}}}
+HOSTILE = b'\xff\x00 caf\xe9 "dq" \'sq\' \\ \n: #{[ \xe2\x80\xa8 end'
+
+
+def _cli_script(method: str, path: str, body: bytes) -> dict:
+    if path.startswith("/openapi.json"):
+        return {"status": 200, "reason": "OK", "headers": [("Content-Type", "application/json")], "body": json.dumps(CLI_SCHEMA).encode()}
+    kind = len(body) % 3
+    return {"status": 500 if len(body) % 5 == 4 else 200, "reason": "It's \"fine\": #1",
+            "headers": [("Content-Type", CTYPES[kind]), ("X-Weird", "a'b\"c: #d \\ \xe9")],
+            "body": HOSTILE if kind else b'{"ok": "\\ud800 \xc3\xa9"}'}
+
+
+def cli_run(desc: dict) -> dict:
+    """One real `st run` (subprocess) with all report formats; the delivered exchanges are read off the server log."""
+    srv = WireServer()
+    srv.script_for = _cli_script
+    d = tempfile.mkdtemp(prefix="c16cli-")
+    try:
+        cmd = ["/venv/bin/st", "run", srv.base_url + "/openapi.json", "--report", "junit,vcr,har", "--report-dir", d, "--phases", "fuzzing",
+               "--max-examples", str(desc["examples"]), "--checks", "not_a_server_error", "--workers", "1", "--seed", str(desc["seed"]),
+               "--output-sanitize", "true" if desc["sanitize"] else "false"] + (["--report-preserve-bytes"] if desc["preserve"] else [])
+        p = subprocess.run(cmd, capture_output=True, text=True, cwd=d, timeout=600, env=dict(os.environ, NO_COLOR="1", COLUMNS="200"))
+        files = {}
+        for n in ("junit.xml", "vcr.yaml", "har.json"):
+            try:
+                with open(os.path.join(d, n), encoding="utf-8", errors="surrogateescape", newline="") as fd:
+                    files[n] = fd.read()
+            except FileNotFoundError:
+                files[n] = None
+        with srv.lock:
+            log = [r for r in srv.log if r["target"].startswith("/items") and any(k.lower() == "x-schemathesis-testcaseid" for k, _ in r["headers"])]
+        xs, entries = [], []
+        for r in log:
+            sc = r["script"]
+            failed = sc["status"] >= 500
+            xs.append({"id": cp(next(v for k, v in r["headers"] if k.lower() == "x-schemathesis-testcaseid")),
+                       "method": cp(r["method"]), "uri": cp(srv.base_url + r["target"]),
+                       "reqHeaders": [{"name": cp(k), "value": cp(v)} for k, v in r["headers"] if k.lower() != "host"],
+                       "hasReqBody": bool(r["body"]), "reqBody": list(r["body"]), "hasResp": True,
+                       "code": cp(str(sc["status"])), "codeInt": sc["status"], "reason": cp(sc["reason"]),
+                       "respHeaders": [{"name": cp(k.lower()), "value": cp(v)} for k, v in sc["headers"]]
+                                      + [{"name": cp("content-length"), "value": cp(str(len(sc["body"])))}],
+                       "respBody": list(sc["body"]), "covDesc": {"has": False, "v": []}, "covExtra": [], "meta": "generate", "checksExact": False,
+                       "checks": [{"name": cp("not_a_server_error"), "status": cp("FAILURE" if failed else "SUCCESS"), "hasMsg": failed,
+                                   "msg": cp("Server error") if failed else []}]})
+            entries.append({"status": "FAILURE" if failed else "SUCCESS", "resp": True, "meta": "generate", "checks_exact": False,
+                            "checks": [{"name": "not_a_server_error", "status": "FAILURE" if failed else "SUCCESS",
+                                        "message": "Server error" if failed else None}]})
+        junit = project_junit(files["junit.xml"])
+        o = {"xs": xs, "entries": entries, "command": {"has": False, "exact": False, "v": []}, "crashAt": 0 if p.returncode in (0, 1) else 1,
+             "crashSite": "" if p.returncode in (0, 1) else "st run exit code %s: %s" % (p.returncode, (p.stdout + p.stderr)[-300:]),
+             "vcr": files["vcr.yaml"], "har": project_har(files["har.json"]),
+             "junitOk": junit["ok"] and [c["label"] for c in junit["cases"]] == ["POST /items"], "title": "", "desc": desc,
+             "exchanges": len(xs), "failed": sum(e["status"] == "FAILURE" for e in entries)}
+        case = {"s": [], "field": "cli", "preserve": desc["preserve"], "sanitize": desc["sanitize"], "wire": True, "cli": desc}
+        o["py"] = sorted(py_string_verdict(case, o))
+        return {"case": case, "obs": o}
+    finally:
+        srv.stop()
+        shutil.rmtree(d, ignore_errors=True)
+
+
+def helper_main() -> None:
+    """Runs in the helper subprocess of run(): the slow-sink writer runs and the CLI runs (threads and sleeps stay out of the main process)."""
+    spec = json.load(sys.stdin)
+    print(json.dumps({"writer": [t for d in spec["writer"] for t in writer_run(d)], "cli": [cli_run(d) for d in spec["cli"]]}))
+
+
 def _ename(e) -> str:
     return e if isinstance(e, str) else e[0]
 
@@ -925,10 +1154,14 @@ def run(ctx: Ctx) -> Outcome:
         [{"n": 8, "vcr_delay": 0.012, "har_delay": 0.3}, {"n": 3, "vcr_delay": 0.03, "har_delay": 0.4},
          {"n": 16, "vcr_delay": 0.006, "har_delay": 0.08}, {"n": 2, "vcr_delay": 0.0, "har_delay": 0.0}]
     # a separate process (the slow runs take seconds of wall time but no CPU; this process must stay single-threaded for pmap's fork)
-    wproc = subprocess.Popen([sys.executable, "-c", "import sys, json; from harness import c16; "
-                              "print(json.dumps([t for d in json.load(sys.stdin) for t in c16.writer_run(d)]))"],
+    cdescs = [{"examples": 12, "seed": 1 + ctx.seed, "preserve": False, "sanitize": False},
+              {"examples": 12, "seed": 2 + ctx.seed, "preserve": True, "sanitize": True}]
+    if not ctx.quick:
+        cdescs += [{"examples": 40, "seed": 3 + ctx.seed, "preserve": True, "sanitize": False},
+                   {"examples": 40, "seed": 4 + ctx.seed, "preserve": False, "sanitize": True}]
+    wproc = subprocess.Popen([sys.executable, "-c", "from harness import c16; c16.helper_main()"],
                              stdin=subprocess.PIPE, stdout=subprocess.PIPE, stderr=subprocess.PIPE, text=True, cwd=common.ROOT)
-    wproc.stdin.write(json.dumps(wdescs))
+    wproc.stdin.write(json.dumps({"writer": wdescs, "cli": cdescs}))
     wproc.stdin.close()
     res_w = tlc.require_ok(tlc.run_tlc("ReportsWriter", "ReportsWriter.cfg", workers=4, timeout=600), "ReportsWriter model")
     for inv in res_w.violated:
@@ -980,8 +1213,7 @@ def run(ctx: Ctx) -> Outcome:
         raise tlc.TLCFailure("the TLA+ YAML scanner and PyYAML disagree on %d of %d scalars, e.g. %r - the spec's model of "
                              "YAML is wrong (machinery)" % (len(mism), n_x, mism[:3]))
     max_len = max(len(c["s"]) for c in strings)
-    cases = [{"s": c["s"], "field": f, "preserve": p, "sanitize": z} for c in strings for f in FIELDS
-             for p, z in variants(f, len(c["s"]), max_len)]
+    cases = [dict(v, s=c["s"], field=f) for c in strings for f in FIELDS for v in variants(f, len(c["s"]), max_len)]
     t1 = time.time()
     obs_all = common.pmap(observe_string, cases)
     t_replay_s = time.time() - t1
@@ -993,6 +1225,17 @@ def run(ctx: Ctx) -> Outcome:
         else:
             kept_cases.append(c)
             kept_obs.append(o)
+    wout = wproc.stdout.read()  # every fork of this process is done: the helper's results can be collected
+    if wproc.wait(timeout=1800) != 0:
+        raise RuntimeError("helper process (writer / CLI runs) failed: " + wproc.stderr.read()[-2000:])
+    helper = json.loads(wout.strip().splitlines()[-1])
+    wtraces = helper["writer"]
+    cli_obs = helper["cli"]
+    for co in cli_obs:
+        if not co["obs"]["xs"]:
+            raise RuntimeError("CLI run delivered no exchange: %s" % co["obs"]["crashSite"])
+        kept_cases.append(co["case"])
+        kept_obs.append(co["obs"])
     verdict_s, states_judge_s, t_judge_s = judge_strings(ctx, kept_cases, kept_obs)
     failing: dict[tuple, dict[tuple, tuple]] = {}  # (field, preserve, sanitize, comp, tag) -> {string: (case, obs, n)}
     for i, (c, o) in enumerate(zip(kept_cases, kept_obs)):
@@ -1007,7 +1250,7 @@ def run(ctx: Ctx) -> Outcome:
                 tg = "malformed-line:" + _line_key(lines[n - 1] if 0 < n <= len(lines) else [])
             if comp == "crash":
                 tg = o["crashSite"]
-            failing.setdefault((c["field"], c["preserve"], c["sanitize"], comp, tg), {})[tuple(c["s"])] = (c, o)
+            failing.setdefault((c["field"] + (":wire" if c.get("wire") else ""), c["preserve"], c["sanitize"], comp, tg), {})[tuple(c["s"])] = (c, o)
     n_bad_s = len(verdict_s)
     implied = 0
     for (field, preserve, sanitize, comp, tg), group in sorted(failing.items()):
@@ -1019,10 +1262,6 @@ def run(ctx: Ctx) -> Outcome:
             out.violations.append(Violation(sig, "%s of %r placed in %s (preserve_bytes=%s, sanitize=%s): %s" % (
                 comp, "".join(map(chr, s)), field, preserve, sanitize, tg), {"kind": "string", "case": c}))
 
-    wout = wproc.stdout.read()
-    if wproc.wait(timeout=1800) != 0:
-        raise RuntimeError("writer runs failed: " + wproc.stderr.read()[-2000:])
-    wtraces = json.loads(wout.strip().splitlines()[-1])
     wverdicts, states_w = judge_writer(ctx, wtraces)
     out.violations.extend(writer_violations(wtraces, wverdicts))
 
@@ -1033,6 +1272,7 @@ def run(ctx: Ctx) -> Outcome:
         "traces_validated_against_impl": len(hs) + len(kept_cases) + len(wtraces),
         "judge_states": states_judge_h + states_judge_s + states_w,
         "writer_model_states": res_w.distinct,
+        "cli_runs": [{"desc": co["obs"]["desc"], "exchanges": co["obs"]["exchanges"], "failed_checks": co["obs"]["failed"]} for co in cli_obs],
         "writer_traces": [{"format": t["format"], "n": t["n"], "events": len(t["events"]), "join_timed_out": t["timedOut"],
                            "accepted": v["accepted"]} for t, v in zip(wtraces, wverdicts)],
         "evaluations": len(hs) + len(cases),
@@ -1056,7 +1296,8 @@ def run(ctx: Ctx) -> Outcome:
                 "(b) every string of ReportsYaml_%s.cfg x %d fields x preserve/sanitize variants (strings of the maximal length 3: the 7 "
                 "hand-quoted fields, plain variant only), raw cassette judged line by line "
                 "by ReportsYamlJudge.tla; (c) ReportsWriter.tla model-checked (all interleavings of handler and writer thread incl. the "
-                "bounded join timing out), real writer runs on a slow sink validated as traces by ReportsWriterTrace.tla; non-trivial = history with a spec hazard / string with a non-alphanumeric character" % (
+                "bounded join timing out), real writer runs on a slow sink validated as traces by ReportsWriterTrace.tla; (d) real `st run "
+                "--report junit,vcr,har` subprocess runs judged against the server's log; non-trivial = history with a spec hazard / string with a non-alphanumeric character" % (
                     tier, tier, len(FIELDS)),
         "exhaustive": True,
         "constants": {"history_cfg": "Reports_%s.cfg" % tier, "string_cfg": "ReportsYaml_%s.cfg" % tier, "fields": FIELDS},
@@ -1102,7 +1343,7 @@ def replay(ctx: Ctx, data: dict) -> Outcome:
         out.violations.extend(writer_violations(traces, verdicts))
     elif data.get("kind") == "string":
         c = data["case"]
-        o = observe_string(c)
+        o = cli_run(c["cli"])["obs"] if c.get("cli") else observe_string(c)
         if "skip" not in o:
             verdict, _, _ = judge_strings(ctx, [c], [o])
             for comp, n, tg in sorted(verdict.get(0, set())):
